@@ -74,7 +74,10 @@ Mapped ==
     [] e.ev \in {"LockFailClosed", "LockAcqSawClosed"} /\ e.l = "wf" -> \E t \in At(q, "_wflock") : FrameLock(q, t[2], t[3]) /\ pc'[q] = t[3]
     \* the caller's context was done while it waited for a lock: the call fails and an asynchronous closer is started (TryLock, third
     \* case); msgWriter.writeMu is not a lock of the model (only its owner ever takes it): its failure is the failure of the frame
-    [] e.ev = "LockFailCtx" /\ e.l \in {"wf", "wmu"} /\ q \in CtxProcs -> \E t \in At(q, "_wflock") : FrameLock(q, t[2], t[3]) /\ pc'[q] = t[3]
+    [] e.ev = "LockFailCtx" /\ e.l \in {"wf", "wmu"} /\ q \in CtxProcs ->
+         \* (Writer.Close on a connection that was closed after the first frame: the model's writer does not start another frame)
+         IF e.l = "wmu" /\ closed /\ pc[q] = "w_after" THEN Stutter
+         ELSE \E t \in At(q, "_wflock") : FrameLock(q, t[2], t[3]) /\ pc'[q] = t[3]
     [] e.ev = "LockFailCtx" /\ e.l = "msg" /\ q \in CtxProcs -> WMsgLock(q) /\ pc'[q] = "w_done"
     [] e.ev = "LockOK" /\ e.l = "msg" -> WMsgLock(q) /\ pc'[q] = "w_wflock"
     [] e.ev \in {"LockFailClosed", "LockAcqSawClosed"} /\ e.l = "msg" -> WMsgLock(q) /\ pc'[q] = "w_done"
